@@ -35,7 +35,8 @@ def parseEvents (k : Nat) (toks : List String) : Option (List MktEv) :=
     | [] => some []
     | "R" :: ts => (go (pos + 1) ts).map (fun l => MktEv.reconnecting pos :: l)
     | t :: ts =>
-      match t.splitOn ":" with
+      -- `i:p@t`: an explicit exchange time; the dataset order, not the time, is what the property is about
+      match ((t.splitOn "@").headD t).splitOn ":" with
       | [i, p] =>
         match i.toNat?, p.toNat? with
         | some i, some p =>
